@@ -1,5 +1,9 @@
 //! Family binary (checks are registered here).
+mod c42;
+mod c43;
+mod c44;
+mod drv;
 
 fn main() {
-    mc::main_dispatch(&[]);
+    mc::main_dispatch(&[("C44", c44::run, c44::META), ("C42", c42::run, c42::META), ("C43", c43::run, c43::META)]);
 }
